@@ -46,7 +46,7 @@ def eof_replayer(extra, path):
                                         mode=extra["app"], eof_after=k, env=env)
             if div:
                 div["pieces"] = [k]
-                div["sig"] = H.server_sig(div, extra["app"], wire)
+                div["sig"] = H.server_sig(div, extra["app"], wire, extra["cfg"])
                 return div
         return None
     finally:
@@ -61,7 +61,7 @@ def tree_replayer(extra, path):
             div = D.run_scenario(extra["cfg"], wire, steps, extra["app"], env)
             if div:
                 div["scenario"] = [[s[0], s[1] if s[0] == "arrive" else None] for s in steps]
-                div["sig"] = H.server_sig(div, extra["app"], wire)
+                div["sig"] = H.server_sig(div, extra["app"], wire, extra["cfg"])
                 return div
         return None
     finally:
